@@ -94,6 +94,23 @@ def use_lmaxb(u):
                           qid="lmaxb-frame", patterns=[LMAXB(z3.Store(Bv, x, v), E, k)]))
 
 
+AMF = z3.Function("argmax_first", z3.ArraySort(I, R), I, I)
+
+
+def argmax_first(ev, E, n):
+    """index of the first maximal element of E[0..n) (n > 0): the value of np.argmax"""
+    u = ev.u
+    if "amf" not in u.used:
+        u.used.add("amf")
+        a = z3.Const("am_E", z3.ArraySort(I, R))
+        m, k = z3.Ints("am_n am_k")
+        r = AMF(a, m)
+        u.bg.append(z3.ForAll([a, m], z3.Implies(m > 0, z3.And(r >= 0, r < m)), qid="argmax-range", patterns=[AMF(a, m)]))
+        u.bg.append(z3.ForAll([a, m, k], z3.Implies(z3.And(m > 0, k >= 0, k < m), z3.And(a[k] <= a[r], z3.Implies(k < r, a[k] < a[r]))),
+                              qid="argmax-max", patterns=[z3.MultiPattern(AMF(a, m), a[k])]))
+    return AMF(E, n)
+
+
 def use_lsum(ev):
     if "lsum" not in ev.u.used:
         ev.u.used.add("lsum")
@@ -199,9 +216,18 @@ def construct(ev, cv, args, kw, node):
     obj = Val(o, Ty("ref", (C,)))
     if init is None:
         return obj
+    c = ev.reg.contracts.get(C + ".__init__")
+    if c is not None and getattr(c, "anyargs", False):
+        # abstract constructor of a class-valued parameter: keyword arguments are matched against the contract's parameter list
+        bad = [k for k in kw if k not in c.params]
+        if bad or args:
+            raise Unsupported("constructor call of %s with arguments %s not in its abstract contract" % (C, bad or "positional"))
+        bound = dict(kw)
+        bound["self"] = obj
+        ev.it.apply_contract(c, C + ".__init__", bound, ev, node, fresh_self=True)
+        return obj
     bound = ev.it.bind_args(init, [obj] + args, kw, Frame(init, K, K + ".__init__", file=ev.ct.classes[K].file), ev.st)
     # an abstract class-valued parameter: its constructor contract is registered under the static class name
-    c = ev.reg.contracts.get(C + ".__init__")
     if c is not None and not c.inline:
         ev.it.apply_contract(c, C + ".__init__", bound, ev, node, fresh_self=True)
     else:
@@ -383,6 +409,9 @@ def spec_call(ev, n, e):
     if n == "is_class":
         v = ev.ev(e.args[0])
         return Val(z3.BoolVal(True), BOOL)
+    if n == "argmax_first":
+        L = ev.ev(e.args[0])
+        return Val(argmax_first(ev, ev.lelts(L), ev.llen(L)), INT)
     if n == "lmaxb":
         L = ev.ev(e.args[0])
         k = _int(ev, ev.ev(e.args[1]), e).t if len(e.args) > 1 else ev.llen(L)
@@ -396,9 +425,10 @@ def spec_call(ev, n, e):
         return Val(num.xr_min(a.t, b.t) if n == "xmin" else num.xr_max(a.t, b.t), FLOAT)
     if n in getattr(ev.reg, "ghost_fields", ()):
         v = ev.ev(e.args[0])
-        ev.u._key_ty.setdefault("g:" + n, INT)
-        A = ev.u.get_arr(ev.st, "g:" + n, INT)
-        return Val(A[v.t], ev.u.T(ev.reg.ghost_fields[n]))
+        gty = ev.u.T(ev.reg.ghost_fields[n])
+        ev.u._key_ty.setdefault("g:" + n, gty)
+        A = ev.u.get_arr(ev.st, "g:" + n, gty)
+        return Val(A[v.t], gty)
     if n in getattr(ev.reg, "opaques", {}):
         return opaque_call(ev, n, e)
     if n in SPECFNS:
@@ -563,6 +593,14 @@ def lib_call(ev, full, args, kw, node, want):
         A.add("np.var(L) == lvar(L) >= 0 (uninterpreted population variance)")
         ev.need(ev.llen(L) > 0, "var-of-empty", node)
         return Val(lvar(ev.lelts(L), ev.llen(L)), REAL)
+    if full == "np.argmax":
+        L = args[0]
+        A.add("np.argmax(np.array(L)): the first index of a maximal element (L non-empty)")
+        n = ev.llen(L)
+        ev.need(n > 0, "argmax-of-empty", node)
+        if L.ty.elem.k != "real":
+            raise Unsupported("np.argmax of a list of %s" % L.ty.elem)
+        return Val(argmax_first(ev, ev.lelts(L), n), INT)
     if full in ("np.maximum", "np.minimum"):
         return minmax(ev, "max" if full.endswith("maximum") else "min", args[0], args[1], node)
     if full in ("np.ceil", "math.ceil"):
